@@ -77,6 +77,11 @@ def main(argv):
         props = allprops if "--all" in argv else [meta["property"]]
         res = run_one(name, props, tier, verify="--no-verify" not in argv)
         out = SEEDED / name / ("result.json" if tier == "quick" and "--all" not in argv else f"result-{tier}{'-all' if '--all' in argv else ''}.json")
+        if out.exists() and "--no-verify" in argv:
+            old = json.loads(out.read_text())
+            for k in ("pinned_tests_pass", "pinned_tests_tail", "demo_shows_violation", "demo_tail"):
+                if k in old and k not in res:
+                    res[k] = old[k]
         out.write_text(json.dumps(res, indent=1) + "\n")
         caught = [p for p, c in res["checks"].items() if c["exit"] == 1]
         own = res["checks"].get(meta["property"], {})
